@@ -191,6 +191,10 @@ impl LogState {
             };
         let mut delay = Duration::from_millis(10);
         let mut was_locked = is_locked(ps, info.as_ref().map(|&(fid, ..)| fid))?;
+        #[cfg(feature = "verif")]
+        if let Some((fid, ..)) = info.as_ref() {
+            redo::verif::point("log.enter", &format!("{} {}", fid, was_locked as i32));
+        }
         let mut line_head = String::new();
         let mut width = tty_width();
         loop {
@@ -198,6 +202,18 @@ impl LogState {
                 let (_, _, logname) = info.as_ref().unwrap();
                 match File::open(logname) {
                     Ok(log_file) => {
+                        #[cfg(feature = "verif")]
+                        {
+                            use std::os::unix::fs::MetadataExt;
+                            redo::verif::point(
+                                "log.open",
+                                &format!(
+                                    "{} {}",
+                                    info.as_ref().map(|&(fid, ..)| fid).unwrap_or(0),
+                                    log_file.metadata().map(|m| m.ino()).unwrap_or(0)
+                                ),
+                            );
+                        }
                         f = Some(Box::new(BufReader::new(log_file)));
                     }
                     Err(e) if e.kind() == io::ErrorKind::NotFound => {
@@ -219,10 +235,18 @@ impl LogState {
             };
             if line.is_empty() && (!matches.is_present("follow") || !was_locked) {
                 // file not locked, and no new lines: done
+                #[cfg(feature = "verif")]
+                if let Some((fid, ..)) = info.as_ref() {
+                    redo::verif::point("log.stop", &format!("{} {}", fid, lines_written));
+                }
                 break;
             }
             if line.is_empty() {
                 was_locked = is_locked(ps, info.as_ref().map(|&(fid, ..)| fid))?;
+                #[cfg(feature = "verif")]
+                if let Some((fid, ..)) = info.as_ref() {
+                    redo::verif::point("log.check", &format!("{} {}", fid, was_locked as i32));
+                }
                 if matches.is_present("follow") {
                     // Don't display status line for extremely short-lived runs
                     if show_status
